@@ -63,14 +63,23 @@ def r1(ctx, chk):
             for k in n.keywords:
                 if k.arg == "microsecond":
                     ms = k.value
-    if ms is None:
-        raise AnalysisError(rule, "microsecond= argument not found in get_date_from_timestamp")
+        elif isinstance(n, ast.Call) and ast.unparse(n.func) in ("timedelta", "datetime.timedelta"):
+            # equally exact: result + timedelta(microseconds=<integer form>)
+            for k in n.keywords:
+                if k.arg == "microseconds":
+                    ms = k.value
     syms = {"g%d" % g: {name} for name, g in grp.items()}
-    lin = _linear(ms, syms)
     w3 = (shapes.get("RE_SEARCH_TIMESTAMP") or {}).get("g3", 3)
-    ok = lin is not None and lin.get("g2") == 10 ** w3 and lin.get("g3") == 1 and not lin.get(1) and not lin.get("g1")
-    chk.ob(rule, "microsecond = %d*group2 + group3" % 10 ** w3, ok, "linear form %s" % lin,
-           key={"construct": "microsecond scale"}, file=f.file, function=f.qual, line=f.node.lineno, text=ast.unparse(ms))
+    if ms is None:
+        chk.ob(rule, "the millisecond/microsecond digits reach the result as an integer microsecond count", False,
+               "no replace(microsecond=...) / timedelta(microseconds=...) built from groups 2 and 3: the sub-second digits take "
+               "another route (through a float, the value is off by a microsecond for large epoch numbers)",
+               key={"construct": "microsecond scale"}, file=f.file, function=f.qual, line=f.node.lineno)
+    else:
+        lin = _linear(ms, syms)
+        ok = lin is not None and lin.get("g2") == 10 ** w3 and lin.get("g3") == 1 and not lin.get(1) and not lin.get("g1")
+        chk.ob(rule, "microsecond = %d*group2 + group3" % 10 ** w3, ok, "linear form %s" % lin,
+               key={"construct": "microsecond scale"}, file=f.file, function=f.qual, line=f.node.lineno, text=ast.unparse(ms))
     # the match is taken on the string handed in, choosing the regex by `negative`
     ok = False
     for n in iter_own_nodes(f.node):
